@@ -7,6 +7,7 @@ comparing every answer with the specification and with the matching non-caching 
 from __future__ import annotations
 
 import asyncio
+import json
 import os
 import random
 import shutil
@@ -214,6 +215,104 @@ def _sig(kind, b, bad):
     return f"{bad['why'].split(' (')[0]}|{s['mode']}|via={s['via']}|how={s.get('how')}"
 
 
+# ---- overlapping asynchronous requests (spec/LoaderOverlap.tla) -----------------------------------------------------------------
+def replay_overlap(case):
+    """Drive real get_template_async tasks through the schedule the specification emitted: the source loader awaits a gate per task."""
+    import re as _re
+    from liquid import Environment
+    from liquid.loader import BaseLoader, TemplateSource
+    from liquid.builtin.loaders.mixins import CachingLoaderMixin
+
+    class GateLoader(BaseLoader):
+        def __init__(self):
+            self.version = 1
+            self.gates = {}
+
+        def _src(self, name):
+            v = self.version
+            return TemplateSource(f"v{v}:{{{{ g }}}}", name, lambda: self.version == v)
+
+        def get_source(self, env, template_name, *, context=None, **kwargs):
+            return self._src(template_name)
+
+        async def get_source_async(self, env, template_name, *, context=None, **kwargs):
+            me = asyncio.current_task().get_name()
+            await self.gates.setdefault(me, asyncio.Event()).wait()
+            return self._src(template_name)
+
+    class CachingGate(CachingLoaderMixin, GateLoader):
+        def __init__(self, **kw):
+            CachingLoaderMixin.__init__(self, **kw)
+            GateLoader.__init__(self)
+
+    async def drive():
+        loader = CachingGate(auto_reload=case["auto"], capacity=4)
+        env = Environment(loader=loader)
+        if case["cached"]:
+            loader.gates["MainThread-pre"] = asyncio.Event()
+            pre = asyncio.create_task(env.get_template_async("k", globals={"g": "g0"}), name="pre")
+            loader.gates.setdefault("pre", asyncio.Event()).set()
+            await pre
+        tasks = {}
+        for ev in case["sched"]:
+            t = ev["t"]
+            if ev["e"] == "begin":
+                g = 1 if t == 3 else t
+                tasks[t] = asyncio.create_task(env.get_template_async("k", globals={"g": f"g{g}"}), name=f"t{t}")
+            elif ev["e"] == "source":
+                loader.gates.setdefault(f"t{t}", asyncio.Event()).set()
+            elif ev["e"] == "edit":
+                loader.version += 1
+            for _ in range(6):          # let every runnable task reach its next await (or finish)
+                await asyncio.sleep(0)
+        for ev in loader.gates.values():
+            ev.set()                    # nothing may stay blocked (an implementation that shares loads never awaits some gates)
+        out = {}
+        for t, task in tasks.items():
+            try:
+                tmpl = await asyncio.wait_for(task, 5)
+                out[t] = tmpl.render()
+            except Exception as e:      # noqa: BLE001
+                out[t] = "!" + type(e).__name__
+        return out
+
+    got = asyncio.run(drive())
+    bad = []
+    for t, text in sorted(got.items()):
+        want = case["answers"][str(t)] if isinstance(case["answers"], dict) else case["answers"][t - 1]
+        m = _re.fullmatch(r"v(\d+):g(\d+)", text)
+        if not m or int(m.group(1)) != want["v"] or int(m.group(2)) != want["g"]:
+            bad.append((t, text, f"v{want['v']}:g{want['g']}"))
+    return got, bad
+
+
+def overlap(ck, tier):
+    from ..tlcrun import gen_cfg, cleanup_gen, run_many
+    try:
+        jobs = [("LoaderOverlap", gen_cfg("cfg/LoaderOverlap.tmpl", dict(Tasks="{1,2}" if tier == "quick" else "{1,2,3}", Auto=a, Cached=c), f"ov{a}{c}"),
+                 dict(workers=1, timeout=1800)) for a in ("TRUE", "FALSE") for c in ("TRUE", "FALSE")]
+        rs = run_many(jobs, parallel=4)
+    finally:
+        cleanup_gen()
+    n = 0
+    for (m, cfg, kw), r in zip(jobs, rs):
+        ck.tlc("LoaderOverlap " + cfg.split("_")[-1], r)
+        if r.violated:
+            ck.fail(f"LoaderOverlap.tla {r.violated} violated", {"tlc": r.out[-3000:]})
+            continue
+        for case in r.emitted:
+            got, bad = replay_overlap(case)
+            ck.case(("overlap", json.dumps(case["sched"]), case["auto"], case["cached"]), nontrivial=any(not e["hit"] for e in case["sched"] if e["e"] == "begin"))
+            ck.validated()
+            n += 1
+            for t, text, want in bad:
+                ck.fail(f"overlapping async requests: task {t} answered {text!r}, LoaderOverlap.tla requires {want!r} (OwnGlobals / VersionInWindow)",
+                        {"schedule": case["sched"], "auto_reload": case["auto"], "start_cached": case["cached"], "answers": got},
+                        sig=f"overlap:auto={case['auto']}:cached={case['cached']}:{'/'.join(e['e'][0] + str(e['t']) for e in case['sched'])}")
+                break
+    ck.cov["overlap_schedules"] = n
+
+
 def run(tier: str) -> int:
     fresh_repo_imports()
     ck = Check(PID, tier)
@@ -276,6 +375,7 @@ def run(tier: str) -> int:
                 ck.fail(f"{kind}: {bad['why']}", {"loader": kind, "behaviour": b, **bad}, sig=_sig(kind, b, bad))
     ck.assumptions += ["dict-backed sources provide no uptodate callable: a stale cached version is permitted there (Detectable=FALSE)",
                        "namespace-aware sources are test subclasses following the documented pattern (DictLoader/FileSystemLoader reading '<ns>/<name>')"]
+    overlap(ck, tier)
     return ck.finish()
 
 
